@@ -19,10 +19,10 @@ Definition pend (g : nat) (p : pc) (k : key) : Prop :=
 
 Lemma pend_window g p k : pend g p k -> in_put_window p = true.
 Proof.
-  destruct p; cbn; try tauto;
+  destruct p; cbn [pend in_put_window]; try tauto; try reflexivity;
     repeat match goal with
-           | |- context [match ?x with _ => _ end] => destruct x; try tauto
-           end; auto.
+           | |- context [match ?x with _ => _ end] => destruct x; try tauto; try reflexivity
+           end.
 Qed.
 
 Definition wfb (p : pc) : Prop :=
@@ -64,15 +64,23 @@ Definition build_cov (s : cst) (p : pc) : Prop :=
   match p with
   | RQPost _ _ rem | RNext _ _ _ rem => forall k, mem k (g_store (g_sh s)) = true -> cov s rem k
   | RActivate => forall k, mem k (g_store (g_sh s)) = true -> cov s [] k
+  (* repaired hasCached: a reader that saw [active] after loading the filter may
+     trust that filter for as long as it stays the live one *)
+  | BTest _ _ g => g = g_gen (g_sh s) -> forall k, mem k (g_store (g_sh s)) = true -> cov s [] k
   | _ => True
   end.
+
+(** a loaded filter generation is never ahead of the live one *)
+Definition gen_ok (cur : nat) (p : pc) : Prop :=
+  match p with BActiveR _ _ g | BTest _ _ g => g <= cur | _ => True end.
 
 Record BInv (s : cst) : Prop := {
   b_mu : forall t1 t2, holds_mu (pcof s t1) = true -> holds_mu (pcof s t2) = true -> t1 = t2;
   b_swap : forall t, is_swap (pcof s t) -> g_active (g_sh s) = false;
   b_active : g_active (g_sh s) = true -> forall k, mem k (g_store (g_sh s)) = true -> cov s [] k;
   b_build : forall t, build_cov s (pcof s t);
-  b_wf : forall t, wfb (pcof s t)
+  b_wf : forall t, wfb (pcof s t);
+  b_gen : forall t, gen_ok (g_gen (g_sh s)) (pcof s t)
 }.
 
 (** what one step does, as far as the Bloom layer is concerned *)
@@ -81,7 +89,10 @@ Record bloom_facts (s : cst) (t : tid) (p p' : pc) (h h' : shared) : Prop := {
   bf_wf : wfb p -> wfb p';
   bf_swap : is_swap p ->
             g_active h' = g_active h /\ g_store h' = g_store h /\ ~ is_swap p' /\
-            match p' with RQPost _ _ _ | RNext _ _ _ _ | RActivate => False | _ => True end;
+            match p' with RQPost _ _ _ | RNext _ _ _ _ | RActivate | BTest _ _ _ => False | _ => True end /\
+            g_gen h' = S (g_gen h);
+  bf_genle : g_gen h <= g_gen h';
+  bf_genok : gen_ok (g_gen h) p -> gen_ok (g_gen h') p';
   bf_gen : ~ is_swap p -> g_gen h' = g_gen h /\
                           forall q, bsub q (g_filt h) = true -> bsub q (g_filt h') = true;
   bf_active : g_active h' = g_active h \/ g_active h' = false \/
@@ -98,6 +109,7 @@ Record bloom_facts (s : cst) (t : tid) (p p' : pc) (h h' : shared) : Prop := {
         (exists n c, p = RQPost n c rem') \/
         (exists n c i k, p = RNext n c i (k :: rem') /\ bsub (pos k) (g_filt h') = true)
     | RActivate => exists n c i, p = RNext n c i []
+    | BTest a k g => p = BActiveR a k g /\ g_active h = true
     | _ => True
     end
 }.
@@ -145,7 +157,7 @@ Proof.
            | |- context [match ?r with ROk => _ | _ => _ end] => destruct r
            end ].
   all: split; unfold is_swap;
-       cbn [holds_mu wfb pend g_store g_cache g_filt g_gen g_active sh_store sh_cache sh_filt sh_active sh_swap];
+       cbn [holds_mu wfb pend gen_ok g_store g_cache g_filt g_gen g_active sh_store sh_cache sh_filt sh_active sh_swap];
        try (intros; tauto); auto.
   all: try solve [ intros (n0 & c0 & [=]) | intros _; split; auto | intros _ (n0 & c0 & [=]) ].
   all: try solve
@@ -205,8 +217,8 @@ Proof. intros (n & c & ->). reflexivity. Qed.
 
 Lemma bloom_step s t s' : c_bloom cf = true -> BInv s -> tstep s t = Some s' -> BInv s'.
 Proof.
-  intros Hbl [HM HD HA HB HW] H. destruct (tstep_inv _ _ _ _ _ _ _ H) as (h' & th' & H1 & ->).
-  pose proof (step_bloom s t _ _ _ Hbl H1) as [G1 G2 G3 G4 G5 G6 G7 G8 G9].
+  intros Hbl [HM HD HA HB HW HG] H. destruct (tstep_inv _ _ _ _ _ _ _ H) as (h' & th' & H1 & ->).
+  pose proof (step_bloom s t _ _ _ Hbl H1) as [G1 G2 G3 GL GO G4 G5 G6 G7 G8 G9].
   fold (pcof s t) in *.
   set (p := pcof s t) in *. set (p' := t_pc th') in *.
   set (s' := mkC h' (cset t th' (g_thr s))).
@@ -214,7 +226,7 @@ Proof.
   assert (Hpt : pcof s' t = p') by (rewrite Hpc; now rewrite Nat.eqb_refl).
   assert (Hpo : forall t1, t1 <> t -> pcof s' t1 = pcof s t1).
   { intros t1 Hne. rewrite Hpc. apply Nat.eqb_neq in Hne. now rewrite Hne. }
-  specialize (G2 (HW t)). specialize (G7 (HW t)).
+  specialize (G2 (HW t)). specialize (G7 (HW t)). specialize (GO (HG t)).
   (* coverage moves along with a non-swap step *)
   assert (Hcov : ~ is_swap p -> forall rem k, cov s rem k -> cov s' rem k).
   { intros Hns rem k [Hf|[Hin|[t1 Hp]]].
@@ -262,6 +274,9 @@ Proof.
     intros t1. destruct (Nat.eq_dec t1 t) as [->|Hne].
     + rewrite Hpt. pose proof (HB t) as Hb. fold p in Hb.
       destruct p' eqn:Ep'; cbn [build_cov]; try exact I.
+      * destruct G9 as [Hp Hact].
+        assert (Hns : ~ is_swap p) by (rewrite Hp; intros (? & ? & [=])).
+        intros _ k1 Hm. apply (Hstored Hns); [|exact Hm]. now apply HA.
       * destruct G9 as [-> Hns]. intros k Hm. right. left. now apply mem_true_iff.
       * destruct G9 as [(n0 & c0 & Hp)|(n0 & c0 & i0 & k0 & Hp & Hf)].
         -- assert (Hns : ~ is_swap p) by (rewrite Hp; intros (? & ? & [=])).
@@ -279,14 +294,23 @@ Proof.
     + rewrite (Hpo _ Hne). pose proof (HB t1) as Hb.
       assert (Hns : holds_mu (pcof s t1) = true -> ~ is_swap p).
       { intros Hh Hsw. apply Hne. apply HM; [exact Hh | now apply is_swap_mu]. }
-      destruct (pcof s t1) eqn:Eq; cbn [build_cov] in *; try exact I;
-        intros k Hm; apply (Hstored (Hns eq_refl)); auto.
+      pose proof (HG t1) as Hg1.
+      destruct (pcof s t1) eqn:Eq; cbn [build_cov gen_ok] in *; try exact I.
+      * (* a reader holding a loaded filter: a swap makes its generation stale *)
+        cbn [g_sh s']. intros Hg k1 Hm. destruct (is_swap_dec p) as [Hsw|Hns'].
+        -- exfalso. destruct (G3 Hsw) as (_ & _ & _ & _ & Hgen). lia.
+        -- apply (Hstored Hns'); [|exact Hm]. apply Hb. rewrite Hg. apply (proj1 (G4 Hns')).
+      * intros k Hm; apply (Hstored (Hns eq_refl)); auto.
+      * intros k Hm; apply (Hstored (Hns eq_refl)); auto.
+      * intros k Hm; apply (Hstored (Hns eq_refl)); auto.
   - intros t1. rewrite Hpc. destruct (t1 =? t); [exact G2 | apply HW].
+  - intros t1. cbn [g_sh s']. rewrite Hpc. destruct (t1 =? t); [exact GO|].
+    pose proof (HG t1) as Hg1. destruct (pcof s t1); cbn [gen_ok] in *; auto; lia.
 Qed.
 
 Lemma bloom_evict s k :
   BInv s -> BInv (mkC (sh_cache (g_sh s) (cdel k (g_cache (g_sh s)))) (g_thr s)).
-Proof. intros [HM HD HA HB HW]. split; assumption. Qed.
+Proof. intros [HM HD HA HB HW HG]. split; assumption. Qed.
 
 Lemma bloom_lrun ls : forall s s', c_bloom cf = true -> BInv s -> lrun s ls = Some s' -> BInv s'.
 Proof.
@@ -306,6 +330,7 @@ Proof.
   - intros t1 t2 H1. destruct (Hp t1) as [E|(n & c & E)]; rewrite E in H1; discriminate.
   - intros t (n & c & E). destruct (Hp t) as [E'|(n' & c' & E')]; congruence.
   - discriminate.
+  - intros t. destruct (Hp t) as [E|(n & c & E)]; rewrite E; exact I.
   - intros t. destruct (Hp t) as [E|(n & c & E)]; rewrite E; exact I.
   - intros t. destruct (Hp t) as [E|(n & c & E)]; rewrite E; exact I.
 Qed.
@@ -329,21 +354,23 @@ Proof.
   intros Hbl HI Ha Hm Hf. destruct (b_active s HI Ha k Hm) as [Hf'|[[]|Hp]]; [congruence | exact Hp].
 Qed.
 
-(** With the active flag and the filter read in one atomic step, the Bloom layer
-    never short-circuits a lookup of a stored key unless a Put of that key is
-    still in flight (it forwards to the inner layers instead). *)
-Lemma never_missing_bloom s t s' a k :
-  d_toctou fl = false -> c_bloom cf = true -> BInv s ->
-  pcof s t = BActive a k -> mem k (g_store (g_sh s)) = true -> ~ put_in_flight s k ->
+(** Repaired hasCached (filter loaded first, [active] read afterwards, negative
+    answer trusted only if the same filter is still live): at the moment the
+    loaded filter is tested, a lookup of a stored key with no Put of that key in
+    flight is never short-circuited - the test says "maybe there" (or the filter
+    is stale and will not be trusted) and the lookup goes on to the inner layers. *)
+Lemma never_missing_bloom s t s' a k g :
+  c_bloom cf = true -> BInv s ->
+  pcof s t = BTest a k g -> mem k (g_store (g_sh s)) = true -> ~ put_in_flight s k ->
   tstep s t = Some s' -> pcof s' t = enter_inner cf a k.
 Proof.
-  intros Htoc Hbl HI Hpc Hm Hnf H. destruct (tstep_inv _ _ _ _ _ _ _ H) as (h' & th' & H1 & ->).
-  rewrite pcof_upd, Nat.eqb_refl. unfold pcof in Hpc.
-  unfold M_C02.tstep1 in H1. rewrite Hpc, Htoc in H1.
-  destruct (g_active (g_sh s)) eqn:Ha.
-  - destruct (bsub (pos k) (g_filt (g_sh s))) eqn:Hf.
-    + now injection H1 as <- <-.
-    + exfalso. apply Hnf. now apply bloom_negative_sound.
+  intros Hbl HI Hpc Hm Hnf H. destruct (tstep_inv _ _ _ _ _ _ _ H) as (h' & th' & H1 & ->).
+  rewrite pcof_upd, Nat.eqb_refl.
+  pose proof (b_build s HI t) as Hb. rewrite Hpc in Hb. cbn [build_cov] in Hb.
+  unfold pcof in Hpc. unfold M_C02.tstep1 in H1. rewrite Hpc in H1.
+  destruct (g =? g_gen (g_sh s)) eqn:Hg; cbn [andb] in H1.
+  - apply Nat.eqb_eq in Hg. destruct (Hb Hg k Hm) as [Hf|[[]|Hp]]; [|now destruct Hnf].
+    rewrite Hf in H1. cbn [negb] in H1. now injection H1 as <- <-.
   - now injection H1 as <- <-.
 Qed.
 
@@ -414,25 +441,39 @@ Proof. eexists. vm_compute. repeat split. Qed.
     false (active filter without key 0), although nothing is ever deleted. *)
 Definition early_run : list label :=
   repeat (LThread 0) 3 ++ repeat (LThread 1) 2 ++ repeat (LThread 2) 4 ++ repeat (LThread 0) 2
-  ++ repeat (LThread 2) 2.
+  ++ repeat (LThread 2) 3.
 
 Lemma early_witness :
   exists s,
-    lrun cf_bloom (Build_flags false true) pos1 sz0
+    lrun cf_bloom (Build_flags true true) pos1 sz0
       (cinit cf_bloom [] 30 true [[OPut 0 false]; [ORead KHas 0; ORead KHas 0]]) early_run = Some s /\
     t_res (tget s 2) = [RBool false; RBool true] /\ t_res (tget s 1) = [] /\
     g_active (g_sh s) = true /\ mem 0 (g_store (g_sh s)) = true /\ bsub (pos1 0) (g_filt (g_sh s)) = false.
 Proof. eexists. vm_compute. repeat split. Qed.
 
-(** the same schedules are impossible / harmless in the repaired model *)
+(** the corresponding schedules in the repaired model: the reader has loaded the
+    old filter and seen it active when the Rebuild deactivates and swaps; the
+    stale filter is not trusted and the store answers.  And activation is not
+    enabled while the Put is between its store write and its filter add. *)
+Definition toctou_run_fixed : list label :=
+  repeat (LThread 0) 7 ++ repeat (LThread 1) 3 ++ repeat (LThread 2) 4 ++ repeat (LThread 1) 3.
+
 Lemma toctou_fixed :
-  forall s,
+  exists s,
     lrun cf_bloom (Build_flags false false) pos1 sz0
-      (cinit cf_bloom [0] 30 true [[ORead KHas 0]; [ORebuild 30 true]]) toctou_run = Some s ->
-    t_res (tget s 1) <> [RBool false].
-Proof. intros s. vm_compute. intros [= <-]. discriminate. Qed.
+      (cinit cf_bloom [0] 30 true [[ORead KHas 0]; [ORebuild 30 true]]) toctou_run_fixed = Some s /\
+    g_active (g_sh s) = false /\ g_filt (g_sh s) = 0%N /\ t_res (tget s 1) = [RBool true].
+Proof. eexists. vm_compute. repeat split. Qed.
+
+Definition early_run_fixed : list label :=
+  repeat (LThread 0) 3 ++ repeat (LThread 1) 2 ++ repeat (LThread 2) 5 ++ repeat (LThread 0) 2.
 
 Lemma early_fixed :
   lrun cf_bloom (Build_flags false false) pos1 sz0
-    (cinit cf_bloom [] 30 true [[OPut 0 false]; [ORead KHas 0; ORead KHas 0]]) early_run = None.
-Proof. vm_compute. reflexivity. Qed.
+    (cinit cf_bloom [] 30 true [[OPut 0 false]; [ORead KHas 0; ORead KHas 0]]) early_run_fixed = None /\
+  exists s,
+    lrun cf_bloom (Build_flags false false) pos1 sz0
+      (cinit cf_bloom [] 30 true [[OPut 0 false]; [ORead KHas 0; ORead KHas 0]])
+      (removelast early_run_fixed) = Some s /\
+    pcof s 0 = RActivate /\ t_res (tget s 2) = [RBool true].
+Proof. split; [vm_compute; reflexivity | eexists; vm_compute; repeat split]. Qed.
